@@ -39,7 +39,7 @@ def strings_over(alpha, maxlen):
     return out
 
 def small_leaves():
-    line_pl = strings_over(b"a$\x00", 2)
+    line_pl = strings_over(b"a$\x00 ", 2)       # (a blank at either edge of a line payload is payload)
     bulk_pl = strings_over(b"a\r\n$\x00", 2)
     leaves = [(k, p) for k in "sei" for p in line_pl] + [('b', p) for p in bulk_pl] + [('b', None)]
     return leaves
